@@ -119,7 +119,35 @@ def sampler_case(n, reload_, batchsize):
         return probs
 
 
+def history_case(steps):
+    """one runner, several crops one after the other; each reap must equal a direct run on a fresh runner with the same inputs
+    (what an earlier crop was given - constants for that sowing, another grid sown first - must not leak into a later one)"""
+    with tmpdir() as d, quiet():
+        r = mk_runner()
+        for k, (combos, extra, sown_first) in enumerate(steps):
+            direct = mk_runner().run_combos(combos, constants=extra, verbosity=0)
+            crop = r.Crop(name="h", parent_dir=d, batchsize=1)
+            if sown_first is not None:
+                crop.sow_combos(sown_first)
+                crop.calc_progress()
+                str(crop)
+            crop.sow_combos(combos, constants=extra)
+            crop.grow_missing()
+            got = crop.reap()
+            if not same_ds(got, direct):
+                return [f"step {k}: reaped dataset differs from the direct run:\n{got}\nvs\n{direct}"]
+            if r.last_ds is None or not same_ds(r.last_ds, direct):
+                return [f"step {k}: the runner's last_ds is not the reaped dataset"]
+    return []
+
+
 tried = 0
+for steps in ([({"a": [1, 2], "b": [1]}, {"c": 7}, None), ({"a": [3], "b": [1, 2]}, {}, None)],
+              [({"a": [1, 2], "b": [3]}, {}, {"a": [3, 4], "b": [1]}), ({"a": [2], "b": [2]}, {"c": 1}, None), ({"a": [2, 1], "b": [2]}, {}, None)]):
+    tried += 1
+    pr = history_case(steps)
+    if pr:
+        finish(True, input=dict(farmer="Runner", history=[dict(combos=c_, constants=e_, sown_first=f_) for c_, e_, f_ in steps]), observed=pr, tried=tried)
 for rep in range(4):
     combos = {"a": rnd.sample([1, 2, 3, 4], rnd.randint(1, 3)), "b": rnd.sample([1, 2, 3], rnd.randint(1, 2))}
     for shuffle, reload_ in itertools.product((False, 3), (False, True)):
